@@ -471,7 +471,9 @@ let bldgen (line : string) : string =
   if List.exists (fun ls -> ls.l_to <> None) st.lsts then emit "+600";
   (* half of the graceful stops that end a scenario find the services still not ready: connections dispatched meanwhile sit unread
      in the workers' queues *)
-  if !blocked && not ((has 'g' || has 'h') && rand 2 = 0) then emit "b";
+  (* flag f: half of the scenarios end inside the episode as well — the forced stop that ends every scenario then finds
+     connections queued at the workers, which must be released, not served *)
+  if !blocked && not ((has 'g' || has 'h' || has 'f') && rand 2 = 0) then emit "b";
   if (fst !acc).paused then emit "R";
   if has 'h' then emit "H" else if has 'g' then emit "G";
   Printf.sprintf "W=%d;L=%d;B=%s;S=%s;ops=%s" w l (List.assoc "B" fields) (try List.assoc "S" fields with Not_found -> "a") (String.concat " " (List.rev !out))
